@@ -38,6 +38,26 @@ func maxUpdateMessageLength(options []*bgp.MarshallingOption) int {
 	return bgp.BGP_MAX_MESSAGE_LENGTH
 }
 
+// attrsLenOnWire is the length the attributes will have once the sender has
+// re-encoded them for the session: towards a peer without the 4-octet AS
+// capability AS_PATH/AGGREGATOR shrink and AS4_PATH/AS4_AGGREGATOR are added.
+func attrsLenOnWire(attrs []bgp.PathAttributeInterface, options []*bgp.MarshallingOption) int {
+	for _, o := range options {
+		if o != nil && o.Use2ByteAS {
+			u := &bgp.BGPUpdate{PathAttributes: attrs}
+			UpdatePathAttrs2ByteAs(u)
+			UpdatePathAggregator2ByteAs(u)
+			attrs = u.PathAttributes
+			break
+		}
+	}
+	n := 0
+	for _, a := range attrs {
+		n += a.Len()
+	}
+	return n
+}
+
 func UpdatePathAttrs2ByteAs(msg *bgp.BGPUpdate) {
 	ps := msg.PathAttributes
 	msg.PathAttributes = make([]bgp.PathAttributeInterface, len(ps))
@@ -514,10 +534,7 @@ func (p *packerMP) pack(options ...*bgp.MarshallingOption) []*bgp.BGPMessage {
 				}
 			}
 
-			attrsLen := 0
-			for _, attr := range attrsWithoutMPReach {
-				attrsLen += attr.Len()
-			}
+			attrsLen := attrsLenOnWire(attrsWithoutMPReach, options)
 
 			baseReachLen := 19 + 2 + 2 + attrsLen
 			nexthops, _ := getMPReachNexthops(paths[0])
@@ -668,10 +685,7 @@ func (p *packerV4) pack(options ...*bgp.MarshallingOption) []*bgp.BGPMessage {
 					attrs_without_mp = append(attrs_without_mp, attr)
 				}
 			}
-			attrsLen := 0
-			for _, a := range attrs_without_mp {
-				attrsLen += a.Len()
-			}
+			attrsLen := attrsLenOnWire(attrs_without_mp, options)
 
 			loop(attrsLen, paths, func(nlris []bgp.PathNLRI) {
 				msgs = append(msgs, bgp.NewBGPUpdateMessage(nil, attrs_without_mp, nlris))
